@@ -1457,8 +1457,12 @@ func (c *Conn) readStream(fr *FrameHeader, res *fasthttp.Response) (err error) {
 		data := fr.Body().(*Data)
 		if data.Len() != 0 {
 			res.AppendBody(data.Data())
+		}
 
-			// let's send the window update
+		// The whole frame counted against the stream's window, padding
+		// included, so the whole frame is handed back. A frame that carries
+		// only padding has no data but still used up window.
+		if fr.Len() != 0 {
 			c.updateWindow(fr.Stream(), fr.Len())
 		}
 
